@@ -52,6 +52,9 @@ def num(x):
     if isinstance(x, float):
         if x != x or x in (float('inf'), float('-inf')):
             return ('nan',)
+        # a literal that is Euler's number to double precision is read as e (cog3: ee = 2.718281828459045)
+        if abs(x - math.e) < 1e-15:
+            return ('fn', 'exp', ('num', Fraction(1)))
         # decimal reading of the literal (the mathematical intention)
         return ('num', Fraction(repr(x)))
     if isinstance(x, Fraction):
